@@ -22,6 +22,13 @@ def mc_case(rng, i):
     case['y'] = to_cls(case['y'])
     if case['y_dev'] is not None: case['y_dev'] = to_cls(case['y_dev'])
     case['target'] = 'multiclass'
+    if i % 4 == 1:
+        # raw feature names that already end with '_<class label>' (x_1, g_b, ...): the per-class columns are <name>_<class>, whatever the name
+        feats = ob.features_of(case); ren = {f: '%s_%s' % (f, labels[(j + 1) % len(labels)]) for j, f in enumerate(feats[:2])}
+        for k in ('X', 'X_dev'):
+            if case[k] is not None: case[k] = case[k].rename(columns=ren)
+        for k in ('quantitative', 'qualitative', 'ordinal'): case[k] = [ren.get(f, f) for f in case[k]]
+        case['values_orders'] = {ren.get(f, f): v for f, v in case['values_orders'].items()}
     return case
 
 
@@ -51,6 +58,9 @@ def one(arg):
     recs = []; lit = dict(cfg=cfg, case=zoo.case_literal(case))
     def rec(clause, ok, msg, extra=None): recs.append((clause, bool(ok), dict(lit, **(extra or {})) if not ok else dict(cfg=cfg, h=hash(str(lit['case'])), extra=extra), msg))
     common = dict(min_freq=cfg['min_freq'], sort_by=cfg['sort_by'], max_n_mod=cfg['max_n_mod'], output_dtype=cfg['output_dtype'], dropna=cfg['dropna'], verbose=False, **zoo.extra_kwargs(cfg))
+    if cfg.get('defaults'):
+        # "the same parameters" includes the ones nobody passes: both carvers are built with their documented defaults (max_n_mod, output_dtype, dropna, min_freq_mod)
+        common = dict(min_freq=cfg['min_freq'], sort_by=cfg['sort_by'], verbose=False)
     if cfg.get('min_freq_mod') is not None: common['min_freq_mod'] = cfg['min_freq_mod']
     mkfeats = lambda: dict(quantitative_features=list(case['quantitative']), qualitative_features=list(case['qualitative']), ordinal_features=list(case['ordinal']))   # fresh lists per object
     X, y = case['X'], case['y']
@@ -111,6 +121,7 @@ def run(ctx):
         case = mc_case(ctx.rng, i)
         cfg = dict(ctx.rng.choice(zoo.CONFIGS)); cfg['min_freq_mod'] = ctx.rng.choice([None, None, cfg['min_freq'], 0.15])
         if i % 5 == 4: cfg['str_nan'] = 'MISSING'; cfg['str_default'] = 'AUTRES'
+        if i % 6 == 3: cfg = dict(min_freq=0.06, sort_by='cramerv', defaults=True, min_freq_mod=None, max_n_mod=5, output_dtype='float', dropna=True)        # optional parameters left to their defaults in both carvers
         specs.append((case, cfg, i))
     for i in range(12 if ctx.tier == 'quick' else 80):
         cfg = dict(min_freq=0.05, max_n_mod=ctx.rng.choice([2, 3, 4]), sort_by=ctx.rng.choice(['tschuprowt', 'cramerv']), dropna=True, output_dtype=('float' if i % 4 else 'str'), min_freq_mod=None)
